@@ -38,6 +38,11 @@ def spec_classify(media_type):
     return 'other'
 
 
+def region_regex_literal(media_type):
+    """C20-regex-literal-media-type: the media type is the regex source string that the code keeps in `xml_text_types`"""
+    return bool(media_type) and media_type.strip().lower() == 'text\\/.*?\\+xml'
+
+
 # ----------------------------------------------------------------------------------------------
 BOMS = [  # longest first, as the Unicode FAQ orders them
     ('\x00\x00\xfe\xff', 'utf-32-be'),
